@@ -19,7 +19,14 @@ Oracle (independent of the library's lexer: vf/oracles/rawtext.py):
       gets a content, `(x)`) and embedding again.  All parenthesis shapes up to 6 tokens are enumerated against every
       embedding;
   (5) the same statement driven through the exported `get_lexer_parser()` pair (lexer.tokenize -> parser.parse, the way
-      the repository's own tests drive it) stores the same text as through parse_sql().
+      the repository's own tests drive it) stores the same text as through parse_sql();
+  (6) one get_lexer_parser() pair used for two statements in a row (previous statement accepted / rejected by the grammar /
+      by the lexer / stopped by an exception of a grammar action / an embedding command; each of the two driven from the
+      token generator or from a list of tokens, as the repository tests do) stores what a fresh pair stores.
+Also generated: statements with TWO native queries (`native2`, slot `query2` = the one on integration db2), native queries
+in more places (implicit join, EXISTS, sub-select of a target / of DELETE / of UPDATE, quoted and two-part integration
+names), every fixed token of the lexer as first / last / only / middle piece of an inner text, embedding commands inside
+the inner text.
 """
 import re
 from hypothesis import strategies as st
@@ -36,7 +43,9 @@ RULE = ('cases = (embedding template, statement layout, inner text[, IF-query te
         '(strings: empty / doubled quotes / backslash escapes / comment-looking / multi-line; @ and @@ variables in all '
         'four quoting forms; numbers like 007, 1.50; nested and empty parentheses; blanks, tabs, newlines, line and '
         'block comments between tokens), and every balanced sequence over ( ) and words up to 6 tokens (enumerated against '
-        'every template); each accepted statement is parsed a second time through get_lexer_parser(); non-trivial = the statement is accepted and the inner text contains a '
+        'every template), and every fixed token of the lexer (keywords, operators) in four positions; statements with two native '
+        'queries; each accepted statement is parsed a second time through get_lexer_parser(), and every template is parsed '
+        'as the second statement of one get_lexer_parser() pair after 7 kinds of previous statement x 4 ways of driving; non-trivial = the statement is accepted and the inner text contains a '
         'string literal, a variable, a nested parenthesis, a comment or a newline; distinct by (template, inner text, '
         'IF-query text)')
 ASSUMPTIONS = ['"up to whitespace and comments": blanks/comments outside literals may be added, removed or changed '
@@ -48,6 +57,13 @@ ASSUMPTIONS = ['"up to whitespace and comments": blanks/comments outside literal
                'outside the domain',
                'get_lexer_parser() is an entry point of the same commands: it is exported by the package and used by the '
                'repository tests; the statement text given to it is stripped of trailing blanks/semicolons as parse_sql does',
+               'a pair returned by get_lexer_parser() may be used for several statements one after the other (nothing says '
+               'it is single-use; the lexers and parsers keep no documented state), with the tokens handed over as the '
+               'generator of lexer.tokenize() or as a list of it (both occur in the repository tests); each statement is '
+               'tokenized by the paired lexer and parsed before the next one is tokenized',
+               'a string whose closing quote follows a backslash (`\'c:\\\'`) is an unterminated literal (the backslash escapes '
+               'the quote, as the mindsdb lexer reads it whenever a later quote exists in the statement): outside the domain, '
+               'although the lexer accepts it when no quote follows in the whole statement',
                'inner texts whose literals are unterminated or whose parentheses are unbalanced are outside the domain']
 _QUICK_FLOORS = {'accepted': 3600, 'has:string': 1900, 'has:string-empty': 200, 'has:doubled-quote': 190,
                  'has:backslash': 480, 'has:multiline-string': 40, 'has:variable': 1000, 'has:variable-quoted': 500,
@@ -57,7 +73,12 @@ _QUICK_FLOORS = {'accepted': 3600, 'has:string': 1900, 'has:string-empty': 200, 
                  'command:trigger': 150, 'command:evaluate': 150, 'origin:corpus': 240, 'origin:grammar': 850,
                  'origin:tokens': 1200, 'layout:2': 590, 'layout:3': 600, '__nontrivial__': 2800}
 # classes fed mostly by the enumerated parts, which do not grow 8-fold in the thorough tier: same floor in both tiers
-_ENUM_FLOORS = {'origin:paren-shapes': 1500, 'has:empty-pair-first': 600, 'entry2:stored-equal': 1500}
+_ENUM_FLOORS = {'origin:paren-shapes': 1500, 'has:empty-pair-first': 600, 'entry2:stored-equal': 1500,
+                'origin:lexemes': 250, 'origin:session': 590, 'session:stored-equal': 650,
+                'session:prev-outcome:exception': 170, 'session:prev-outcome:tree': 170, 'session:prev-outcome:rejected': 170,
+                'session:prev-outcome:lex-error': 80, 'session:drive:generator>list': 140, 'session:drive:list>list': 140,
+                'session:drive:generator>generator': 140, 'session:drive:list>generator': 140,
+                'command:native2': 150, 'slot:query2': 150}
 FLOORS = {'quick': dict(_QUICK_FLOORS, **_ENUM_FLOORS),
           'thorough': dict({k: v * 8 for k, v in _QUICK_FLOORS.items()}, **_ENUM_FLOORS)}
 N = {'quick': 500, 'thorough': 10000}
@@ -114,7 +135,30 @@ _T = [
     ('native-union', 'native', "SELECT * FROM db ({q}) UNION SELECT * FROM db2.t"),
     ('native-cte', 'native', "WITH c AS (SELECT * FROM db ({q})) SELECT * FROM c"),
 ]
-TEMPLATES = {i: {'id': i, 'family': f, 'text': t, 'q2': '{q2}' in t} for i, f, t in _T}
+# more places of a native query (not crossed with the parenthesis shapes) and statements with TWO native queries
+# (`native2`: the second one is on integration db2, slot `query2`)
+_T_MORE = [
+    ('native-implicit-join', 'native', "SELECT * FROM t1, db ({q}) AS n WHERE t1.a = n.a"),
+    ('native-left-join-3', 'native', "SELECT * FROM t1 LEFT JOIN db ({q}) AS n ON t1.a = n.a JOIN mindsdb.m"),
+    ('native-exists', 'native', "SELECT * FROM a WHERE EXISTS (SELECT * FROM db ({q})) AND b = 'it''s'"),
+    ('native-target-subselect', 'native', "SELECT (SELECT x FROM db ({q})) AS c, '' FROM t1"),
+    ('native-delete-in', 'native', "DELETE FROM t1 WHERE a IN (SELECT a FROM db ({q}))"),
+    ('native-update-subselect', 'native', "UPDATE t1 SET a = (SELECT a FROM db ({q})) WHERE b = 1"),
+    ('native-insert-columns', 'native', "INSERT INTO t2 (a, b) SELECT * FROM db ({q})"),
+    ('native-replace-table', 'native', "CREATE OR REPLACE TABLE int1.t2 SELECT * FROM db ({q})"),
+    ('native-quoted-db-tight', 'native', "SELECT * FROM `db`({q}) AS \"al\""),
+    ('native-two-part-db', 'native', "SELECT * FROM proj.db ({q}) al GROUP BY a HAVING count(*) > 1 ORDER BY a"),
+    ('native-intersect', 'native', "SELECT * FROM db2.t INTERSECT SELECT * FROM db ({q}) LIMIT 1"),
+    ('native2-join', 'native2', "SELECT * FROM db ({q}) a JOIN db2 ({q2}) b ON a.x = b.x"),
+    ('native2-implicit-join', 'native2', "SELECT * FROM db ({q}) a, db2 ({q2}) b"),
+    ('native2-union', 'native2', "SELECT * FROM db ({q}) UNION ALL SELECT * FROM db2 ({q2})"),
+    ('native2-cte', 'native2', "WITH c AS (SELECT * FROM db ({q})), d AS (SELECT * FROM db2 ({q2})) SELECT * FROM c JOIN d"),
+    ('native2-where-subselect', 'native2', "SELECT * FROM db ({q}) WHERE x = (SELECT max(y) FROM db2 ({q2}) WHERE z = 'it''s')"),
+]
+SHAPE_TEMPLATE_IDS = [i for i, f, t in _T]
+_T = _T + _T_MORE
+TEMPLATES = {i: {'id': i, 'family': f, 'text': t, 'q2': '{q2}' in t,
+                 'slot2': ('query2' if f == 'native2' else 'if_query') if '{q2}' in t else None} for i, f, t in _T}
 TEMPLATE_IDS = [i for i, f, t in _T]
 LAYOUTS = (0, 1, 2, 3)
 MORE_LAYOUTS = ('model-db', 'view-full', 'job-sched-if', 'trigger-columns', 'native-join-on', 'evaluate-using',
@@ -137,6 +181,14 @@ def render(tmpl, layout, q, q2=None):
 def slots_of(tree, tmpl):
     """[(slot name, object, attribute)] where the stored inner texts live."""
     fam = tmpl['family']
+    if fam == 'native2':
+        nodes = [n for n in walk(tree) if type(n).__name__ == 'NativeQuery']
+        by_db = {}
+        for n in nodes:
+            by_db.setdefault(str(n.integration.parts[-1]), []).append(n)
+        if len(nodes) != 2 or sorted(by_db) != ['db', 'db2']:
+            return None
+        return [('query', by_db['db'][0], 'query'), ('query2', by_db['db2'][0], 'query')]
     if fam == 'native':
         nodes = [n for n in walk(tree) if type(n).__name__ == 'NativeQuery']
         if len(nodes) != 1:
@@ -188,6 +240,12 @@ FIXED = [
     "select a\nfrom t\nwhere b = 1\nand c = 'x'",
     "select @$x, '$', `$`",
     "select * from pg.tbl1 where b>{{PREVIOUS_START_DATE}} and c > '{{START}}'",
+    # embedding commands inside the inner text (job bodies): several statements, their own raw queries, IF
+    "CREATE MODEL m2 FROM db2 (select '' a, 'it''s' b from t) PREDICT y USING tag = 'x';\n"
+    "RETRAIN m2 FROM db2 (select @v) ; CREATE JOB j2 (select 1) IF (select '')",
+    "insert into t2 (select * from db3 (select \"d\\\"q\" from `a b`) where c = @@`a b`); delete from t where a = ''",
+    "CREATE VIEW v2 AS (select * from db2 (select ')' , '(' from t)) -- ) it's\n; select $$ a ( $$ , ')' , $$ ) $$",
+    "select ` ( `, \" ) \", ' (( ', /* ) */ @'a ( ', @@\"b ) \", -- (((\n 1",
 ]
 
 STRINGS = ["'x'", "'a b'", "''", "'2020-01-01'", "'it''s'", "''''", "'''a'", "'a'''", "'a\\'b'", "'a\\\\'", "'\\\\'",
@@ -196,7 +254,7 @@ STRINGS = ["'x'", "'a b'", "''", "'2020-01-01'", "'it''s'", "''''", "'''a'", "'a
 VARS = ['@v', '@abc', '@a.b', '@$x', '@_y', "@'a b'", '@"a b"', '@`a b`', "@'x'", '@@sv', '@@a.b', "@@'a b'", '@@"a b"',
         '@@`a b`', "@'a  b'", '@@$s']
 NUMS = ['0', '1', '10', '007', '00', '1.50', '0.0', '00.10', '1.5', '12345678901234567890', '123456789.123456789']
-IDS = ['a', 'b', 't1', 'col1', 'T2', 'MiXed', '`a b`', '`select`', '`a  b`', "`a'b`", '`a.b`', '1a', '$x', 'a.b', 'a.b.c',
+IDS = ['$$', 'a', 'b', 't1', 'col1', 'T2', 'MiXed', '`a b`', '`select`', '`a  b`', "`a'b`", '`a.b`', '1a', '$x', 'a.b', 'a.b.c',
        '`ünï`', 'primary_key', 'x_1']
 OPS = [',', ',', ',', '.', '*', '+', '-', '/', '%', '=', '!=', '<>', '<', '<=', '>', '>=', '||', '->', '->>', '::', ':',
        ';', '[', ']', '{', '}', '?', '~', '!~']
@@ -215,6 +273,7 @@ _BASE = {}
 _ISO = {}
 _ACC = {}
 _CORPUS = []
+_LEXEMES = []
 
 
 def paren_shapes(max_len=6):
@@ -252,7 +311,10 @@ PAREN_SHAPES = paren_shapes(6)
 
 
 def prepare(tier):
-    grammar.get('mindsdb')
+    gg = grammar.get('mindsdb')
+    _LEXEMES.clear()
+    # one spelling of every fixed token of the lexer (keywords, two-word keywords, operators), parentheses excepted
+    _LEXEMES.extend(sorted(set(x for x in gg.kw.values() if x not in ('(', ')') and rawtext.well_formed(x)[0])))
     _CORPUS.clear()
     seen = set()
     for x in corpus.accepted():
@@ -292,7 +354,7 @@ def token_seq(draw, depth=0, max_items=6):
     out = []
     for _ in range(n):
         what = draw(st.sampled_from(['str', 'str', 'var', 'var', 'num', 'id', 'id', 'kw', 'kw', 'op', 'op',
-                                     'group', 'group', 'empty', 'str-grammar']))
+                                     'group', 'group', 'empty', 'str-grammar', 'kw-any']))
         if what == 'group' and depth < 3:
             out.append('(')
             out.extend(token_seq(draw, depth + 1, max_items=4))
@@ -308,6 +370,8 @@ def token_seq(draw, depth=0, max_items=6):
             p = grammar.POOLS['rich']
             out.append(draw(st.sampled_from(p['QUOTE_STRING'] + p['DQUOTE_STRING'] + p['VARIABLE'] + p['SYSTEM_VARIABLE']
                                             + p['INTEGER'] + p['FLOAT'] + p['ID'])))
+        elif what == 'kw-any':
+            out.append(draw(st.sampled_from(_LEXEMES)))        # every keyword / operator token of the lexer
         elif what == 'var':
             out.append(draw(st.sampled_from(VARS)))
         elif what == 'num':
@@ -715,6 +779,109 @@ def judge_entry2(tmpl, texts, sql, cfg, main_equal, classes):
     return out
 
 
+# (6) one get_lexer_parser() pair used for two statements in a row (state carried between calls).
+#     previous statements: accepted / rejected by the grammar / by the lexer / stopped by an exception of a grammar action
+#     / an embedding command of its own; each long enough that a slice of it at the offsets of the next statement is text
+SESSION_PREV = [
+    ('accepted', "SELECT aaaaaaaaaaaaaaaaaaaaaaaaaaaaaaaaaaaaaaaaaaaaaaaaaaaaaaaaaaaaaaaaaaaaaaaaaaaaaaaaaaaaaaaaa, 'x''y' "
+                 "FROM ttttttttttttttttttttttttttttttttttttttttttttttttttttttttttttttttttt WHERE bbbbbbbbbbbbbbbbbbbbbbbb = @v"),
+    ('syntax-error', "SELECT FROM FROM aaaaaaaaaaaaaaaaaaaaaaaaaaaaaaaaaaaaaaaaaaaaaaaaaaaaaaaaaaaaaaaaaaaaaaaaaaaaaaaaaaaaaaaa "
+                     "bbbbbbbbbbbbbbbbbbbbbbbbbbbbbbbbbbbbbbbbbbbbbbbbbbbbbbbbbbbbbbbbbbbbbbbbbbbbbbbbbbbbbbbbbbbbbbbbbbbbbbb"),
+    ('syntax-error-early', "SELECT 1 LIMIT 1 LIMIT 2 , aaaaaaaaaaaaaaaaaaaaaaaaaaaaaaaaaaaaaaaaaaaaaaaaaaaaaaaaaaaaaaaaaaaaa, "
+                           "bbbbbbbbbbbbbbbbbbbbbbbbbbbbbbbbbbbbbbbbbbbbbbbbbbbbbbbbbbbbbbbbbbbbbbbbbbbbbbbbbbbbbbbbbbbbbbbbb"),
+    ('lex-error', "SELECT aaaaaaaaaaaaaaaaaaaaaaaaaaaaaaaaaaa # bbbbbbbbbbbbbbbbbbbbbbbbbbbbbbbbbbbbbbbbbbbbbbbbbbbbbbbbbbbbbbbbbbbbb "
+                  "ccccccccccccccccccccccccccccccccccccccccccccccccccccccccccccccccccccccccccccccccccccccccccccccccccc"),
+    ('action-exception', "SELECT * FROM t AS a.b WHERE xxxxxxxxxxxxxxxxxxxxxxxxxxxxxxxxxxxxxxxxxxxxxxxxxxxxxxxxxxxxxxxxxxxxxxx = 1 "
+                         "AND yyyyyyyyyyyyyyyyyyyyyyyyyyyyyyyyyyyyyyyyyyyyyyyyyyyyyyyyyyyyyyyyyyyyyyyyyyyyyyyyyyyyyyyyy = 2"),
+    ('action-exception-late', "SELECT xxxxxxxxxxxxxxxxxxxxxxxxxxxxxxxxxxxxxxxxxxxxxxxxxxxxxxxxxxxxxxxxxxxxxxxxxxxxxxxxxxxxxxxxxxxxxxx "
+                              "FROM t1 LIMIT 1 ORDER BY yyyyyyyyyyyyyyyyyyyyyyyyyyyyyyyyyyyyyyyyyyyyyyyyyyyyyyyyyyyyyyyyyyyy"),
+    ('embedding', "CREATE VIEW wwwwwwwwwwwwwwwwwwwwwwwwwww AS (select 'zzzzzzzzzzzzzzzzzzzzzzzzzzzzzzzzzzzzzzzzzzzzzzzzzzzzzzz', '' "
+                  "from uuuuuuuuuuuuuuuuuuuuuuuuuuuuuuuuuuuuuuuuuuuuuuuuuuuuuuuuuuuuuuuuuuuuuuuuuuuuuuuuuuuuuuuuuuu)"),
+]
+SESSION_PREV_TEXT = dict(SESSION_PREV)
+SESSION_INNER = ["select '', 'it''s', @v from t where a = @@s",
+                 "select \"d\\\"q\" , f((a), ())\n from `t 1` -- c\n where b = 'x\\'y'",
+                 "select a from t where b in (1, (2)) and c = @'a b' /* z */ or d = ''''"]
+
+
+def _drive(parser, lexer, text, how):
+    """('tree', tree) | ('rejected', None) | ('lex-error', None) | ('exception', None)"""
+    from sly.lex import LexError
+    try:
+        if how == 'list':
+            tree = parser.parse(iter(list(lexer.tokenize(text))))
+        else:
+            tree = parser.parse(lexer.tokenize(text))
+    except LexError:
+        return 'lex-error', None
+    except RecursionError:
+        raise
+    except Exception:
+        return 'exception', None
+    return ('tree', tree) if tree is not None else ('rejected', None)
+
+
+def judge_session(case, col):
+    """One lexer/parser pair: the previous statement, then the embedding statement.  Judged only when the embedding
+    statement on a fresh pair (same way of driving) stores the inner text."""
+    from mindsdb_sql import get_lexer_parser
+    tmpl = TEMPLATES[case['tmpl']]
+    ses = case['session']
+    inner = case['inner']
+    texts = {'query': inner}
+    if tmpl['q2']:
+        texts[tmpl['slot2']] = case.get('inner2') or 'select 2'
+    for x in texts.values():
+        if not rawtext.well_formed(x)[0]:
+            col.excluded('outside domain')
+            return []
+    sql = render(tmpl, 0, inner, texts.get(tmpl['slot2']))
+    prev = SESSION_PREV_TEXT[ses['prev']]
+    key = (case['tmpl'], inner, ses['prev'], ses['prev_drive'], ses['drive'])
+    classes = ['origin:session', 'session:prev:' + ses['prev'], 'session:drive:' + ses['prev_drive'] + '>' + ses['drive']]
+    cfg = {'command': tmpl['family'], 'entry': 'get_lexer_parser'}
+
+    def stored_of(tree):
+        sl = slots_of(tree, tmpl) if tree is not None else None
+        if sl is None:
+            return None
+        return {name: getattr(obj, attr) for name, obj, attr in sl}
+
+    lexer, parser = get_lexer_parser('mindsdb')
+    fresh = stored_of(_drive(parser, lexer, sql, ses['drive'])[1])
+    if fresh is None or any(not isinstance(fresh[n], str) or rawtext.lenient(fresh[n]) != rawtext.lenient(texts[n])
+                            for n in texts):
+        classes.append('session:not-judged')         # the fresh pair differs already: reported by (1) / (5)
+        col.case(key, False, classes)
+        return []
+    lexer, parser = get_lexer_parser('mindsdb')
+    outcome = _drive(parser, lexer, prev, ses['prev_drive'])[0]
+    classes.append('session:prev-outcome:' + outcome)
+    how, tree = _drive(parser, lexer, sql, ses['drive'])
+    feats = ['prev:' + ses['prev'], 'prev-outcome:' + outcome, 'prev-drive:' + ses['prev_drive'], 'drive:' + ses['drive'],
+             'equal-with-fresh-pair']
+    out = []
+    got = stored_of(tree)
+    if got is None:
+        classes.append('session:second-statement-' + how)
+        out.append(findings.record('missing-query', 'entry:get_lexer_parser:reused', feats + ['second:' + how], cfg,
+                                   f'after {prev[:40]!r}.. the statement accepted by a fresh pair gives {how}', sql))
+    else:
+        for name in texts:
+            st_ = got[name]
+            if isinstance(st_, str) and rawtext.lenient(st_) == rawtext.lenient(texts[name]):
+                classes.append('session:stored-equal')
+                continue
+            classes.append('session:stored-differs')
+            f2 = list(feats)
+            if isinstance(st_, str) and st_ and st_ in prev:
+                f2.append('stored-is-text-of-previous-statement')
+            out.append(findings.record('text-differs', 'entry:get_lexer_parser:reused', f2, dict(cfg, slot=name),
+                                       f'after {prev[:40]!r}.. inner {texts[name]!r} stored {st_!r}', sql))
+    col.case(key, True, classes, {'template': case['tmpl'], 'session': ses, 'inner': inner, 'stored_equal': not out})
+    return out
+
+
 def _baseline(tmpl):
     from mindsdb_sql import parse_sql
     b = _BASE.get(tmpl['id'])
@@ -731,6 +898,8 @@ def judge(case, col):
     from mindsdb_sql.exceptions import ParsingException
     from sly.lex import LexError
     from vf.props.c02 import site_of
+    if case.get('session'):
+        return judge_session(case, col)
     tmpl = TEMPLATES[case['tmpl']]
     layout = case.get('layout', 0)
     inner = case['inner']
@@ -739,7 +908,7 @@ def judge(case, col):
     if tmpl['q2']:
         if inner2 is None:
             inner2 = 'select 2'
-        texts['if_query'] = inner2
+        texts[tmpl['slot2']] = inner2
     for name, x in texts.items():
         ok, why = rawtext.well_formed(x)
         if not ok:
@@ -852,7 +1021,7 @@ def run_shard(col, k, nshards, tier, seed):
             col.fail(rec, c)
     # every parenthesis shape up to 6 tokens in every embedding (tight, one-line) and, blank-separated, in the
     # multi-line layout of a few templates
-    shapes = [(t, 0, False, n) for t in TEMPLATE_IDS for n in range(len(PAREN_SHAPES))]
+    shapes = [(t, 0, False, n) for t in SHAPE_TEMPLATE_IDS for n in range(len(PAREN_SHAPES))]
     shapes += [(t, 2, True, n) for t in more for n in range(len(PAREN_SHAPES))]
     for i, (t, l, spaced, n) in enumerate(shapes):
         if i % nshards != k:
@@ -863,9 +1032,36 @@ def run_shard(col, k, nshards, tier, seed):
             c['inner2'] = c['expect2'] = render_shape(PAREN_SHAPES[(n * 7 + 3) % len(PAREN_SHAPES)], not spaced)
         for rec in judge(c, col):
             col.fail(rec, c)
+    # every fixed token of the lexer as first / last / only / middle piece, in 4 templates each (rotating)
+    forms = ('x {} y', '{}', '{} x', 'x {}')
+    lexs = [(TEMPLATE_IDS[(i * 4 + j * 17) % len(TEMPLATE_IDS)], forms[(i + j) % 4].format(x))
+            for i, x in enumerate(_LEXEMES) for j in range(4)]
+    for i, (t, text) in enumerate(lexs):
+        if i % nshards != k:
+            continue
+        c = {'tmpl': t, 'layout': 0, 'inner': text, 'expect': text, 'origin': 'lexemes'}
+        if TEMPLATES[t]['q2']:
+            c['inner2'] = c['expect2'] = forms[(i + 1) % 4].format(_LEXEMES[(i * 7 + 3) % len(_LEXEMES)])
+        for rec in judge(c, col):
+            col.fail(rec, c)
+    # one lexer/parser pair for two statements: every template x previous statement x ways of driving the two
+    ses = [(t, pv, d1, d2) for t in TEMPLATE_IDS for pv, _ in SESSION_PREV for d1 in ('generator', 'list')
+           for d2 in ('generator', 'list')]
+    for i, (t, pv, d1, d2) in enumerate(ses):
+        if i % nshards != k:
+            continue
+        c = {'tmpl': t, 'layout': 0, 'inner': SESSION_INNER[i % len(SESSION_INNER)], 'origin': 'session',
+             'session': {'prev': pv, 'prev_drive': d1, 'drive': d2}}
+        if TEMPLATES[t]['q2']:
+            c['inner2'] = SESSION_INNER[(i + 1) % len(SESSION_INNER)]
+        for rec in judge(c, col):
+            col.fail(rec, c)
     if k == 0:
+        col.exhaustive_parts.append(f'{len(_LEXEMES)} fixed tokens of the lexer x 4 positions/templates = {len(lexs)} cases')
+        col.exhaustive_parts.append(f'{len(TEMPLATE_IDS)} templates x {len(SESSION_PREV)} previous statements x 2 x 2 ways '
+                                    f'of driving one get_lexer_parser() pair = {len(ses)} cases')
         col.exhaustive_parts.append(f'{len(PAREN_SHAPES)} balanced sequences over ( ) and words up to 6 tokens x '
-                                    f'{len(TEMPLATE_IDS)} embedding templates (+ blank-separated in the multi-line '
+                                    f'{len(SHAPE_TEMPLATE_IDS)} embedding templates (+ blank-separated in the multi-line '
                                     f'layout of {len(more)} templates) = {len(shapes)} cases')
         col.exhaustive_parts.append(f'{len(FIXED)} hand-written inner texts x {len(TEMPLATE_IDS)} embedding templates '
                                     f'(+ 3 more statement layouts of {len(more)} templates) = {len(space)} cases')
